@@ -538,7 +538,7 @@ impl Gen<'_> {
         }
         let pr = if level == 0 { self.p.p_retry_tag } else { self.p.p_retry_tag / 4 };
         if pct(&mut self.r, pr) {
-            let n = self.r.range(1, 3);
+            let n = if self.r.chance(1, 8) { 0 } else { self.r.range(1, 3) };
             let with_delay = pct(&mut self.r, self.p.p_delay);
             let d = *self.r.pick(DELAYS_MS);
             t.push(match (self.r.below(2), with_delay) {
